@@ -1,6 +1,7 @@
 import Grip.Drv.Common
 import Grip.Model.C05
 import Grip.Spec.C05
+import Grip.Model.C05Check
 import Grip.Drv.C05Access
 import GripGen.AuthTables
 
@@ -87,6 +88,20 @@ def step (_ : Unit) (j : Json) : Unit × Json :=
               ("spec", Json.mkObj [("err", errJson d.err), ("handled", handledJson d.handled), ("log", logJson log)]),
               ("kf", Json.str tag)]))
     | _, _ => ((), Drv.bad "call: cannot decode")
+  | some "serve" =>
+    -- the real server.Serve probed over HTTP; the MODEL answers from the regenerated Serve table
+    let plugins := (val? j "plugins") == some (Json.bool true)
+    let probes := (arr? j "probes").getD []
+    let rows := probes.map fun p =>
+      let svc := (str? p "svc").getD ""
+      let kind := (str? p "kind").getD ""
+      let hd := [Json.str svc, Json.str kind, Json.str ((str? p "verb").getD ""), Json.str ((str? p "path").getD "")]
+      let d := if gatewayRefuses T.serve plugins svc (kind != "unary") then "denied" else "open"
+      (hd ++ [Json.str d, Json.str d, Json.str "open"], hd ++ [Json.str "denied", Json.str "denied", Json.str "open"])
+    let model := Json.mkObj [("probes", Json.arr (rows.map (fun r => Json.arr r.1.toArray)).toArray)]
+    let spec := Json.mkObj [("probes", Json.arr (rows.map (fun r => Json.arr r.2.toArray)).toArray)]
+    if Json.compress model == Json.compress spec then ((), model)
+    else ((), model.setObjVal! "spec" spec |>.setObjVal! "kf" (Json.str "C05-unmediated"))
   | _ => ((), Grip.Drv.C05Access.step T j)   -- ops of mode "access": casbin / basic / proxy / e2e
 
 def main : IO Unit := Drv.runLoop () step
